@@ -227,17 +227,25 @@ def _impl(case):
     for _ in range(case["n0"]):
         pick()()
 
+    nonnode_count = [0]
+    opkey = [0]
+
     def arg(v):
         if v is None:
             return None
         if v == "x":
-            return NotANode()
+            # an object that is no tree node: one that accepts attributes, a string, a number - in turn (a non-node is
+            # refused before it is touched, so its nature must not matter)
+            nonnode_count[0] += 1
+            return ("not-a-node", NotANode(), 17, 2.5)[(nonnode_count[0] + opkey[0]) % 4]
         if v == "y":
-            return FalsyNotANode()
+            nonnode_count[0] += 1
+            return (FalsyNotANode(), "", 0)[(nonnode_count[0] + opkey[0]) % 3]
         return ctl.nodes[v]
 
     out = []
     for op in case["ops"]:
+        opkey[0] = len(repr(sorted((k, repr(v)) for k, v in op.items() if k != "faults")))
         ctl.begin(op.get("faults"))
         res = "ok"
         try:
